@@ -91,13 +91,29 @@ def renumber (cfgs : List Int) (thermal : Bool) : Option (List Int) :=
     | first :: _ => if thermal && first > 1 then some (l.map (· - (first - 1))) else some l
   | _ => none
 
+/-- `l[::step]` counting positions from `n`: every element whose position is a multiple of `step` -/
+def everyNth {β : Type} (step : Nat) (n : Nat) (l : List β) : List β :=
+  (l.zipIdx n).filterMap (fun (x, k) => if k % step == 0 then some x else none)
+
+/-- `config_no.index(v)` (raises when absent) -/
+def indexOf? (cl : List Int) (v : Int) : Option Nat :=
+  let k := cl.findIdx (· == v)
+  if k < cl.length then some k else none
+
+def startIdx (cl : List Int) (rstart : Option Int) : Option Nat :=
+  match rstart with | none => some 0 | some v => indexOf? cl v
+
+def stopIdx (cl : List Int) (rstop : Option Int) : Option Nat :=
+  match rstop with | none => some (cl.length - 1) | some v => indexOf? cl v
+
+/-- `l[i0 : i1 + 1][::step]` -/
+def pick {β : Type} (i0 i1 step : Nat) (l : List β) : List β :=
+  everyNth (max step 1) 0 ((l.take (i1 + 1)).drop i0)
+
 /-- `data[r_start_index : r_stop_index + 1][::r_step]` with indices found by value -/
-def select {α} (cl : List Int) (data : List α) (rstart rstop : Option Int) (rstep : Nat) : Option (List Int × List α) := do
-  let i0 ← match rstart with | none => some 0 | some v => (let k := cl.findIdx (· == v); if k < cl.length then some k else none)
-  let i1 ← match rstop with | none => some (cl.length - 1) | some v => (let k := cl.findIdx (· == v); if k < cl.length then some k else none)
-  let step := max rstep 1
-  let pick {β} (l : List β) : List β :=
-    ((l.take (i1 + 1)).drop i0).zipIdx.filterMap (fun (x, k) => if k % step == 0 then some x else none)
-  pure (pick cl, pick data)
+def select {α} (cl : List Int) (data : List α) (rstart rstop : Option Int) (rstep : Nat) : Option (List Int × List α) :=
+  match startIdx cl rstart, stopIdx cl rstop with
+  | some i0, some i1 => some (pick i0 i1 rstep cl, pick i0 i1 rstep data)
+  | _, _ => none
 
 end PV.Bytes
